@@ -138,9 +138,23 @@ def run_case(cfg, devs, speed, initial, stim, t_end=T_END):
     return r, term
 
 
+def load_corpus():
+    import glob
+    out = []
+    for f in sorted(glob.glob("/verif/corpus/*/*.json")):
+        rp = json.load(open(f))
+        if rp.get("kind") != "single":
+            continue
+        cfg = {int(k): dict(order=[(c, (k2 if k2 == "dev" else int(k2))) for c, k2 in v["order"]],
+                            conns=[tuple(x) for x in v["conns"]]) for k, v in rp["cfg"].items()}
+        out.append(dict(cfg=cfg, devs={int(k): tuple(v) for k, v in rp["devs"].items()}, speed=tuple(rp["speed"]),
+                        initial=rp["initial"], stim=[tuple(x) for x in rp["stim"]]))
+    return out
+
+
 def gen_single_cases(tier, rng, emphasis):
     """returns list of dict(cfg, devs, speed, initial, stim)"""
-    cases = []
+    cases = load_corpus()
     n_ex = 0
     if emphasis in ("initial", "nested"):
         for cfg in small_nestings():
@@ -231,3 +245,122 @@ def replay_S(rp):
     print("observed:", r["per"], r["error"], r["errors"][:2])
     print("codes:", bad.get(0, []), [REASONS.get(c) for c in bad.get(0, [])])
     return 1 if (bad or r["error"]) else 0
+
+
+# ------------------------------------------------------------------ pairs (C09, C10)
+def main_pairs(pid, tier, seed, prop_codes, prop_mod, serving_files, what, mode, extra_part=None):
+    ck = Check(pid, tier, seed, prop_mod, serving_files)
+    ck.build_and_audit()
+    rng = random.Random(seed)
+    pairs = []
+    if mode == "flatten":
+        base = [dict(cfg=c, devs=slevel.gen_devs(rng, c, (0, 1, 4)), speed=(1, 1), initial=0, stim=[]) for c in small_nestings()]
+        base += [c for c in load_corpus() if slevel.depth_of(c["cfg"]) > 1]
+        for _ in range({"quick": 60, "thorough": 1000}[tier]):
+            cfg = slevel.gen_config(rng, depth=rng.choice([1, 1, 2, 3]), p_sys=0.5)
+            if slevel.depth_of(cfg) < 2:
+                continue
+            devs = slevel.gen_devs(rng, cfg)
+            base.append(dict(cfg=cfg, devs=devs, speed=rng.choice([(1, 1), (2, 1), (1, 2)]), initial=0,
+                             stim=gen_stim(rng, cfg, devs, allowed=(0, 1, 4))))
+        for b in base:
+            f = dict(b)
+            f["cfg"] = flatten(b["cfg"])
+            pairs.append((b, f))
+        check_fn = "check_flat_pair"
+    else:
+        for _ in range({"quick": 70, "thorough": 1000}[tier]):
+            cfg = slevel.gen_config(rng, depth=rng.choice([0, 0, 1, 2]))
+            devs = slevel.gen_devs(rng, cfg)
+            stim = gen_stim(rng, cfg, devs)
+            # integer speeds only: with a fractional ns conversion the whole-ns rounding of an interrupt stamp
+            # depends on the real time of the previous tick, which an unrelated part legitimately moves
+            b = dict(cfg=cfg, devs=devs, speed=rng.choice([(1, 1), (2, 1)]), initial=0, stim=stim)
+            pairs.append((b, extend(rng, b)))
+        check_fn = "check_ext_pair"
+    runs, terms = [], []
+    for (a, b) in pairs:
+        ra, ta = run_case(a["cfg"], a["devs"], a["speed"], a["initial"], a["stim"])
+        rb, tb = run_case(b["cfg"], b["devs"], b["speed"], b["initial"], b["stim"])
+        runs.append((ra, rb))
+        terms.append("(" + ta + ", " + tb + ")")
+    bad = run_shards(pid, HEADER, "pair_case", check_fn, terms, shard_size=6)
+    for i, ((a, b), (ra, rb)) in enumerate(zip(pairs, runs)):
+        ck.count(json.dumps([describe(a), describe(b)], sort_keys=True), nontrivial(a, ra))
+        if ra["error"] or rb["error"]:
+            bad.setdefault(i, []).append(99)
+    ck.evaluations *= 2
+    ck.rule = ("pairs of whole simulations on the real schedulers/components (internal bus, virtual time, table-driven devices): "
+               + ("each nested configuration (enumerated small nestings, corpus, seeded random to depth 3) and its mechanical flattening "
+                  "(Coq [flatten], mirrored by the harness and compared), same devices, callbacks and interrupts (on devices that "
+                  "re-request every update or never request)" if mode == "flatten" else
+                  "each configuration and the same configuration extended by a disconnected part (devices with their own callbacks, "
+                  "a sibling system simulation, a nested system), interrupts on both")
+               + "; per-device (time, inputs) sequences compared inside Coq; non-trivial = >= 2 devices and >= 3 ticks")
+    ck.coverage.update(pairs=len(pairs), disagreements=len(bad))
+    ck.sample(dict(first=describe(pairs[-1][0]), second=describe(pairs[-1][1])))
+    cases = [p[0] for p in pairs]
+    report_codes(ck, pid, what, bad, cases, [r[0] for r in runs], prop_codes | {99},
+                 extra=lambda i: dict(kind="pair", mode=mode, second=describe(pairs[i][1]),
+                                      observed_second={str(k): v for k, v in runs[i][1]["per"].items()},
+                                      error_second=runs[i][1]["error"]))
+    if extra_part:
+        extra_part(ck, tier, rng)
+    return ck.finish()
+
+
+def extend(rng, b):
+    """the same configuration plus a disconnected part at top level"""
+    cfg = {k: dict(order=list(v["order"]), conns=list(v["conns"])) for k, v in b["cfg"].items()}
+    devs = dict(b["devs"])
+    kind = rng.choice(["devices", "devices", "system", "nested"])
+    base_id = 100
+    lv_id = max(cfg) + 1
+    seed = next(iter(devs.values()))[0] if devs else 1
+    if kind == "devices":
+        n = rng.randint(1, 3)
+        for i in range(n):
+            c = base_id + i
+            cfg[1]["order"].append((c, "dev"))
+            if i > 0 and rng.random() < 0.7:
+                cfg[1]["conns"].append((c - 1, 1, c, 1))
+            devs[c] = (seed, rng.choice([200_000_000, 500_000_000]), rng.choice([0, 1, 1, 3]))
+    else:
+        inner = dict(order=[(base_id + 1, "dev"), (base_id + 2, "dev")], conns=[(base_id + 1, 1, base_id + 2, 1), (base_id + 2, 1, EXP, 1)])
+        devs[base_id + 1] = (seed, 400_000_000, 1)
+        devs[base_id + 2] = (seed, 500_000_000, rng.choice([0, 1]))
+        if kind == "nested":
+            inner2 = dict(order=[(base_id + 4, "dev")], conns=[(base_id + 4, 2, EXP, 1)])
+            devs[base_id + 4] = (seed, 300_000_000, 1)
+            cfg[lv_id + 1] = inner2
+            inner["order"].append((base_id + 3, lv_id + 1))
+        cfg[lv_id] = inner
+        cfg[1]["order"].append((base_id, lv_id))
+        cfg[1]["order"].append((base_id + 9, "dev"))
+        cfg[1]["conns"].append((base_id, 1, base_id + 9, 1))
+        devs[base_id + 9] = (seed, 300_000_000, 0)
+    e = dict(b)
+    e["cfg"], e["devs"] = cfg, devs
+    extra_devs = [d for d in devs if d >= base_id]
+    e["stim"] = sorted(list(b["stim"]) + [(rng.randrange(50, 2900) * 1_000_000 + 59 * (k + 1), rng.choice(extra_devs))
+                                           for k in range(rng.randint(0, 2))])
+    return e
+
+
+def replay_pair(rp):
+    def conv(d):
+        cfg = {int(k): dict(order=[(c, (k2 if k2 == "dev" else int(k2))) for c, k2 in v["order"]],
+                            conns=[tuple(x) for x in v["conns"]]) for k, v in d["cfg"].items()}
+        return cfg, {int(k): tuple(v) for k, v in d["devs"].items()}, tuple(d["speed"]), d["initial"], [tuple(s) for s in d["stim"]]
+    if rp.get("kind") != "pair":
+        return replay_S(rp)
+    a, b = conv(rp), conv(rp["second"])
+    ra, ta = run_case(*a)
+    rb, tb = run_case(*b)
+    fn = "check_flat_pair" if rp["mode"] == "flatten" else "check_ext_pair"
+    bad = run_shards("replay", HEADER, "pair_case", fn, ["(" + ta + ", " + tb + ")"])
+    print("first:", a[0], "second:", b[0])
+    print("observed first:", ra["per"], ra["error"])
+    print("observed second:", rb["per"], rb["error"])
+    print("codes:", bad.get(0, []), [REASONS.get(c) for c in bad.get(0, [])])
+    return 1 if bad else 0
